@@ -348,7 +348,8 @@ def copy(source, dest, verbose=0):
             for r in transaction:
                 oid = r.oid
                 if verbose:
-                    print(oid_repr(oid), r.version, len(r.data))
+                    # (the record of an un-creation has no data)
+                    print(oid_repr(oid), r.version, len(r.data or b''))
                 if restoring:
                     dest.restore(oid, r.tid, r.data, r.version,
                                  r.data_txn, transaction)
